@@ -139,6 +139,12 @@ def build_drivers(ctx, pkg="./drivers", race=False, tags="verif,rpctest",
     cmd = ["go1.26", "test", "-c", "-tags", tags, "-o", out]
     if race:
         cmd.append("-race")
+    if os.environ.get("VERIF_COVER"):
+        # statement coverage of the code under test by the drivers (used by
+        # bin/covergaps to list code the traces never observe; not a verdict)
+        cmd += ["-cover", "-coverpkg",
+                "github.com/lightninglabs/lightning-node-connect/gbn,"
+                "github.com/lightninglabs/lightning-node-connect/mailbox"]
     cmd.append(pkg)
     t = time.time()
     p = subprocess.run(cmd, cwd=harness_dir(ctx), env=go_env(),
@@ -159,6 +165,10 @@ def run_driver(ctx, binary, test, out_dir, env=None, timeout=1800, args=None):
         e.update({k: str(v) for k, v in env.items()})
     cmd = [binary, "-test.run", "^%s$" % test, "-test.count=1",
            "-test.timeout", "%ds" % timeout] + (args or [])
+    if os.environ.get("VERIF_COVER"):
+        os.makedirs(os.environ["VERIF_COVER"], exist_ok=True)
+        cmd.append("-test.coverprofile=%s/%s-%s-%d.out" % (
+            os.environ["VERIF_COVER"], ctx.pid, test, int(time.time() * 1000)))
     t = time.time()
     try:
         p = subprocess.run(cmd, cwd=out_dir, env=e, capture_output=True,
